@@ -1,7 +1,7 @@
 (* C26 — lemmas about Sec/Authz.v (for all grant oracles, claims, methods, stores, module
    lists, write requests and store sets) and computations over the tables regenerated from the
    Go source (Generated/C26Tables.v: finite, so vm_compute over them is a complete check). *)
-From OFGA Require Import Base.Bytes Generated.C26Tables Sec.Authz.
+From OFGA Require Import Base.Bytes Generated.C26Tables Sec.Authz Sec.AuthzHandlers.
 From Coq Require Import String Bool Lia.
 Open Scope N_scope.
 
@@ -24,9 +24,31 @@ Proof.
   destruct (relation_of m) as [r|]; [exists r; reflexivity | discriminate].
 Qed.
 
-(* the switch of getRelation agrees, method by method, with the hand-written reading *)
+(* the transcribed switch agrees, method by method, with the hand-written reading *)
 Lemma relation_table_spec : forall m : api_method, relation_of m = Some (spec_relation m).
 Proof. intro m; destruct m; reflexivity. Qed.
+
+(* the transcription in Sec/Authz.v IS the source: API methods (in order, by string value), the
+   relation each clause of getRelation returns, the relation constants, the module limit *)
+Lemma relation_table_matches_source : gen_relation_table = model_relation_table.
+Proof. vm_compute. reflexivity. Qed.
+
+Lemma api_methods_match_source : map snd gen_api_methods = map api_method_bytes all_api_methods.
+Proof. vm_compute. reflexivity. Qed.
+
+Lemma relations_match_source : map snd gen_relations = map relation_bytes all_relations.
+Proof. vm_compute. reflexivity. Qed.
+
+Lemma max_modules_matches_source : gen_max_modules = max_modules_in_request.
+Proof. vm_compute. reflexivity. Qed.
+
+(* every API method of the source has a clause in the switch *)
+Lemma source_relation_table_total :
+  forallb (fun e => match snd e with Some _ => true | None => false end) gen_relation_table = true.
+Proof. vm_compute. reflexivity. Qed.
+
+Lemma all_relations_complete : forall r : relation, In r all_relations.
+Proof. intro r; destruct r; vm_compute; tauto. Qed.
 
 Lemma no_unknown_shapes : c26_unknown = [].
 Proof. vm_compute. reflexivity. Qed.
@@ -628,8 +650,11 @@ Lemma unscoped_handlers_reviewed :
   map h_name (filter (fun h => negb (h_store_scoped h)) c26_handlers) = ["CreateStore"; "ListStores"]%string.
 Proof. vm_compute. reflexivity. Qed.
 
-Lemma handler_flags_computed : handler_flags = handler_flags_def.
-Proof. vm_compute. reflexivity. Qed.
+(* the pinned lists the extracted oracle reads are what the regenerated handler table says *)
+Lemma pinned_handlers_match_source :
+  map (fun h => bytes_of_string (h_name h)) (filter h_store_scoped c26_handlers) = spec_store_scoped_handlers /\
+  map (fun h => bytes_of_string (h_name h)) (filter tr_model_read_before_authz c26_handlers) = spec_model_first_handlers.
+Proof. vm_compute. split; reflexivity. Qed.
 
 Lemma list_stores_empty_guard_present : c26_list_stores_empty_guard = true.
 Proof. vm_compute. reflexivity. Qed.
